@@ -10,7 +10,7 @@ for d in seeded/*/; do
   ev=$(mktemp -d /tmp/seedreg-XXXX); cp known_findings.json $ev/
   out=$(./bin/fitcheck -prop $p -tier quick -repo /repo -verif $ev 2>&1); rc=$?
   rules=$(echo "$out" | grep -oE "C[0-9]+: C[0-9]+-[A-Za-z0-9-]+" | sed 's/^C[0-9]*: //' | sort -u | tr '\n' ' ')
-  rm -rf $ev; git -C /repo checkout -- .
+  rm -rf $ev; git -C /repo checkout -- . ; git -C /repo clean -fdq
   n=$((n+1))
   if [ $rc -eq 0 ]; then miss=$((miss+1)); echo "$id ($p): NOT REPORTED by its own check"; else echo "$id ($p): $rules"; fi
 done
